@@ -383,7 +383,7 @@ Fixpoint count_incr (k : option pystr) (m : list (option pystr * nat)) : list (o
 Fixpoint insert_desc {A} (key : A -> nat) (x : A) (l : list A) : list A :=
   match l with
   | [] => [x]
-  | y :: r => if Nat.ltb (key y) (key x) then x :: l else y :: insert_desc key x r
+  | y :: r => if Nat.leb (key y) (key x) then x :: l else y :: insert_desc key x r
   end.
 (* stable sort by key, descending: insert from the right so equal keys keep their order *)
 Definition sort_desc {A} (key : A -> nat) (l : list A) : list A :=
